@@ -199,6 +199,17 @@ def xml_to_tupletree_sax(xml_string, meaning, conn_id=None):
                     meaning, exc, xml_msg),
             conn_id=conn_id)
         raise pe.with_traceback(org_tb)  # ignore this call in traceback!
+    except (LookupError, ValueError) as exc:
+        # The expat based SAX parser raises these exceptions (including
+        # UnicodeError, a subclass of ValueError) when the XML declaration
+        # specifies an encoding that is unknown, is not a text encoding or
+        # is not supported, e.g. encoding="hex" or encoding="utf-7".
+        pe = XMLParseError(
+            _format("XML parsing error encountered in {0}: {1}: {2}",
+                    meaning, exc.__class__.__name__, exc),
+            conn_id=conn_id)
+        pe.__cause__ = None
+        raise pe
 
     return handler.root
 
